@@ -471,10 +471,31 @@ def _arrange(nodes, state, route):
 BAD_VALUES = {"int": 5, "str": "x", "obj": object(), "list": [], "none-in-list": None, "zero": 0, "empty-str": "", "empty-tuple": (), "false": False}
 
 
+def _lookalikes():
+    """Objects that look like nodes without being one: a node CLASS passed instead of an instance (a throw-away class,
+    because a broken library may write to it), and an application object with parent/children/iter_path_reverse attributes."""
+    import types
+
+    import anytree
+
+    class PassedByMistake(anytree.NodeMixin):
+        pass
+
+    stub = types.SimpleNamespace(parent=None, children=(), name="stub")
+    stub.iter_path_reverse = lambda: iter((stub,))
+    stub.path = (stub,)
+    return {"class": PassedByMistake, "stub": stub}
+
+
+LOOKALIKES = [{"bad": "class"}, {"bad": "stub"}]
+
+
 def resolve(universe, arg):
     if arg is None:
         return None
     if isinstance(arg, dict):
+        if arg["bad"] in ("class", "stub"):
+            return _lookalikes()[arg["bad"]]  # fresh objects per use: whatever a broken library does to them stays local
         return BAD_VALUES[arg["bad"]]
     return universe[arg]
 
@@ -844,6 +865,9 @@ def calls_for(n, family="NM", invalid=False, maxlen=None):
             yield ["parent", node, {"bad": "int"}]
             yield ["parent", node, {"bad": "zero"}]
             yield ["parent", node, {"bad": "empty-str"}]
+            if invalid == "look":
+                yield ["parent", node, {"bad": "class"}]
+                yield ["parent", node, {"bad": "stub"}]
     forms = itertools.cycle(["list", "tuple", "gen"])
     for node in labels:
         for seq in _shapes.sequences(labels, maxlen):
@@ -855,6 +879,10 @@ def calls_for(n, family="NM", invalid=False, maxlen=None):
             yield ["children", node, [{"bad": "zero"}]]
             if n > 1:
                 yield ["children", node, [(node + 1) % n, {"bad": "int"}]]
+            if invalid == "look":
+                yield ["children", node, [{"bad": "class"}]]
+                if n > 1:
+                    yield ["children", node, [(node + 1) % n, {"bad": "stub"}]]
     for node in labels:
         yield ["del", node]
 
@@ -885,7 +913,7 @@ def history_strategy(max_nodes=7, max_steps=30, faults="none", invalid=False, cl
         idx = st.integers(0, n - 1)
         node_arg = idx
         if invalid:
-            node_arg = st.one_of(idx, idx, idx, idx, st.sampled_from([{"bad": "int"}, {"bad": "str"}, {"bad": "obj"}, {"bad": "zero"}, {"bad": "empty-str"}, {"bad": "false"}, {"bad": "empty-tuple"}]))
+            node_arg = st.one_of(idx, idx, idx, idx, st.sampled_from([{"bad": "int"}, {"bad": "str"}, {"bad": "obj"}, {"bad": "zero"}, {"bad": "empty-str"}, {"bad": "false"}, {"bad": "empty-tuple"}] + (LOOKALIKES if invalid == "look" else [])))
         child_list = st.lists(node_arg, max_size=min(n, 5))
         parent_op = st.tuples(st.just("parent"), idx, st.one_of(st.none(), node_arg, node_arg)).map(list)
         children_op = st.tuples(st.just("children"), idx, child_list, st.sampled_from(["list", "tuple", "gen"])).map(list)
